@@ -14,6 +14,10 @@ return with an O(points x windows) brute-force reference:
 * ``rolling_window.coverage``    if every actual step between centres <= size: every point farther than the
                                  margin from the border of the windows' hull (= the region for
                                  adjust="spacing"/shape) is selected at least once;
+* ``*.purity``                   core.digest of region / coordinates / centre / sizes is the same before and after the call
+                                 (region, centre and sizes are judged from a snapshot taken BEFORE the call);
+* ``history.region_object_unchanged``  one region object (list, tuple, float64/float32/integer ndarray, row view of a table)
+                                 reused by consecutive calls still holds the caller's values;
 * ``expanding_window.*``         one entry per size in the given order, same index form and membership around
                                  the given centre, larger windows contain the smaller ones.
 
@@ -28,6 +32,7 @@ import warnings
 import numpy as np
 
 from .. import gen, ref
+from ..core import digest
 
 ID = "C14"
 LEVEL = "exploration"
@@ -40,7 +45,8 @@ RULE = (
     "and unsorted size lists with duplicates and empty windows; 'history' cases call both functions repeatedly on the SAME ndarray "
     "objects whose contents are changed in place in between (+=, *=, slice assignment, row/column overwrite of a 2-D array, shuffle, "
     "full overwrite), with the same and with other window parameters / centres on the same region, interleaved with a second "
-    "coordinate set. Non-trivial rolling case = at least two windows with different "
+    "coordinate set, and with ONE region object per set reused by all its rolling_window calls. Regions are passed as list, tuple, "
+    "float64 ndarray, row view of a 2-D table, float32 ndarray or integer ndarray. Non-trivial rolling case = at least two windows with different "
     "selections, at least one decided inside and one decided outside (point, window) pair; non-trivial expanding case = at least two "
     "sizes with different selections. Distinct = hash of the coordinate arrays and the configuration."
 )
@@ -50,14 +56,16 @@ ASSUMPTIONS = [
     "points within 1e-9*size + 8 eps*max|coordinate| of a window edge (or of the hull border for coverage) may go either way",
     "coordinates are finite numpy arrays of equal shape; a shape with a single row/column of windows is only exercised with numpy-float region bounds (python floats make verde raise ZeroDivisionError before any window exists)",
     "order of the indices inside one window is not part of the statement (compared as sets); duplicates are not allowed",
+    "region, centre and sizes are the values the caller passed (snapshot taken before the call); a purity monitor compares core.digest of region / coordinates / centre / sizes before and after every call",
+    "for a single-precision (float32) region verde's bounds and centres carry float32 round-off: centres are then judged with a tolerance of 16 float32 ulps of the largest bound instead of ref.check_line's 8 float64 ulps",
     "the monitors read the argument arrays at return time and keep nothing between calls, so every return of a call history is judged against the arrays' current contents",
 ]
 FLOORS = {
     # about 40 percent of the smallest value seen on the unchanged tree over seeds 0..9 (thorough = 20 x the quick workload)
     "quick": {
-        "eval:rolling_window.centres": 440, "eval:rolling_window.index_form": 440, "eval:rolling_window.membership": 440,
-        "eval:rolling_window.coverage": 265, "eval:expanding_window.index_form": 260,
-        "eval:expanding_window.order_membership": 260, "eval:expanding_window.nesting": 260, "distinct_nontrivial": 620,
+        "eval:rolling_window.centres": 690, "eval:rolling_window.index_form": 690, "eval:rolling_window.membership": 690,
+        "eval:rolling_window.coverage": 415, "eval:expanding_window.index_form": 415,
+        "eval:expanding_window.order_membership": 415, "eval:expanding_window.nesting": 415, "distinct_nontrivial": 620,
         "windows_judged": 105000, "pairs_decided": 14000000, "pairs_decided_inside": 860000, "expanding:pairs_decided": 140000,
         "class:empty_windows": 60000, "expanding:class:empty_windows": 160, "class:input_1d": 190, "class:input_2d": 225,
         "class:input_2d_fortran_order": 60, "class:extra_coordinates": 210, "class:integer_coordinates": 18,
@@ -72,11 +80,18 @@ FLOORS = {
         "history:rolling_same_region_other_step": 16, "history:rolling_same_region_other_adjust": 7,
         "history:inplace_iadd_shift": 16, "history:inplace_imul_scale": 13, "history:inplace_slice_assignment": 16,
         "history:inplace_partial_overwrite_2d": 7, "history:inplace_shuffle_one_coordinate": 15,
+        "eval:rolling_window.purity": 700, "eval:expanding_window.purity": 415, "eval:history.region_object_unchanged": 230,
+        "class:region_container_list": 160, "class:region_container_tuple": 65, "class:region_container_ndarray_float64": 110,
+        "class:region_container_ndarray_float64_row_view_of_table": 65, "class:region_container_ndarray_float32": 70,
+        "class:region_container_ndarray_integer": 29, "history:rolling_calls_reusing_the_region_object": 170,
+        "history:region_object_reused_ndarray_float64": 30, "history:region_object_reused_ndarray_float64_row_view_of_table": 15,
+        "history:region_object_reused_ndarray_float32": 16, "history:region_object_reused_ndarray_integer": 7,
+        "expanding:class:sizes_container_ndarray_float64": 110,
     },
     "thorough": {
-        "eval:rolling_window.centres": 8800, "eval:rolling_window.index_form": 8800, "eval:rolling_window.membership": 8800,
-        "eval:rolling_window.coverage": 5300, "eval:expanding_window.index_form": 5200,
-        "eval:expanding_window.order_membership": 5200, "eval:expanding_window.nesting": 5200, "distinct_nontrivial": 12400,
+        "eval:rolling_window.centres": 13800, "eval:rolling_window.index_form": 13800, "eval:rolling_window.membership": 13800,
+        "eval:rolling_window.coverage": 8300, "eval:expanding_window.index_form": 8300,
+        "eval:expanding_window.order_membership": 8300, "eval:expanding_window.nesting": 8300, "distinct_nontrivial": 12400,
         "windows_judged": 2100000, "pairs_decided": 280000000, "pairs_decided_inside": 17200000,
         "expanding:pairs_decided": 2800000, "class:empty_windows": 1200000, "expanding:class:empty_windows": 3200,
         "class:input_1d": 3800, "class:input_2d": 4500, "class:input_2d_fortran_order": 1200, "class:extra_coordinates": 4200,
@@ -91,6 +106,14 @@ FLOORS = {
         "history:rolling_same_region_other_step": 320, "history:rolling_same_region_other_adjust": 140,
         "history:inplace_iadd_shift": 320, "history:inplace_imul_scale": 260, "history:inplace_slice_assignment": 320,
         "history:inplace_partial_overwrite_2d": 140, "history:inplace_shuffle_one_coordinate": 300,
+        "eval:rolling_window.purity": 14000, "eval:expanding_window.purity": 8300, "eval:history.region_object_unchanged": 4600,
+        "class:region_container_list": 3200, "class:region_container_tuple": 1300,
+        "class:region_container_ndarray_float64": 2200, "class:region_container_ndarray_float64_row_view_of_table": 1300,
+        "class:region_container_ndarray_float32": 1400, "class:region_container_ndarray_integer": 580,
+        "history:rolling_calls_reusing_the_region_object": 3400, "history:region_object_reused_ndarray_float64": 600,
+        "history:region_object_reused_ndarray_float64_row_view_of_table": 300,
+        "history:region_object_reused_ndarray_float32": 320, "history:region_object_reused_ndarray_integer": 140,
+        "expanding:class:sizes_container_ndarray_float64": 2200,
     },
 }
 JOBS = {"quick": 1, "thorough": 8}
@@ -152,6 +175,68 @@ def index_form(idx, in_shape, arrays):
     return flat, None
 
 
+EPS32 = float(np.finfo("float32").eps)
+
+
+def region_is_single_precision(region):
+    """A region held in float32 / float16 (ndarray or numpy scalars): verde's bounds and centres then carry that precision."""
+    if isinstance(region, np.ndarray):
+        return region.dtype.kind == "f" and region.dtype.itemsize < 8
+    try:
+        return any(isinstance(v, np.floating) and v.dtype.itemsize < 8 for v in region)
+    except TypeError:
+        return False
+
+
+def region_container(region):
+    if isinstance(region, np.ndarray):
+        kind = "float64" if region.dtype == np.float64 else "float32" if region.dtype == np.float32 else \
+            "integer" if region.dtype.kind in "iu" else str(region.dtype)
+        view = "_row_view_of_table" if region.base is not None else ""
+        return "ndarray_" + kind + view
+    return type(region).__name__
+
+
+def check_centre_line(values, start, stop, size, spacing, adjust, loose_tol):
+    """
+    ref.check_line for float64 regions. For a single-precision region the same decision with a tolerance of a few float32
+    ulps on the node positions and on the interval-count tie (never stricter than the precision the caller supplied).
+    """
+    if not loose_tol:
+        return ref.check_line(values, start, stop, size, spacing, adjust, False)
+    from fractions import Fraction
+
+    values = np.asarray(values, dtype="float64")
+    info = {"loose": True}
+    if values.ndim != 1:
+        return "result is not 1-D", info
+    if spacing is not None:
+        n = values.size - 1
+        q = ref.interval_ratio(start, stop, spacing)
+        ok, tie = ref.intervals_ok(n, q)
+        if not ok:
+            slack = Fraction(1, 2) + abs(q) * Fraction(8 * EPS32)
+            ok = n >= 1 and (abs(Fraction(n) - q) <= slack or (n == 1 and q < slack))
+            tie = ok
+        info.update(q=float(q), n=int(n), tie=bool(tie))
+        if not ok:
+            return "number of intervals %d is not the integer nearest to extent/spacing=%.9g (at least one)" % (n, float(q)), info
+        stop_eff = float(start) + n * float(spacing) if adjust == "region" else float(stop)
+    else:
+        n = int(size) - 1
+        if values.size != int(size):
+            return "expected exactly %d nodes, got %d" % (int(size), values.size), info
+        stop_eff = float(stop)
+    expected = ref.line_nodes(start, stop_eff, n, False)
+    if expected.size != values.size:
+        return "expected %d nodes, got %d" % (expected.size, values.size), info
+    err = float(np.max(np.abs(values - expected))) if values.size else 0.0
+    info["err_over_tol"] = err / loose_tol
+    if not err <= loose_tol:
+        return "nodes differ from the even subdivision by %.3g (single-precision tolerance %.3g)" % (err, loose_tol), info
+    return None, info
+
+
 def window_tables(x, y, cx, cy, half, margin):
     """Boolean (windows x points) tables: decided inside, decided outside."""
     dx = np.abs(x[None, :] - cx[:, None])
@@ -200,7 +285,42 @@ def install(tap, run):
                 "shape": a.get("shape"), "region": None if a.get("region") is None else [float(v) for v in a["region"]],
                 "adjust": a.get("adjust")}
 
+    def snapshot(ev, names):
+        """Before the call: digests of the arguments (purity) and the caller's values of region / centre / sizes."""
+        a = ev.args
+        snap = {"digest": {name: digest(a.get(name)) for name in names}}
+        for name in ("region", "center", "sizes"):
+            if name in names and a.get(name) is not None:
+                try:
+                    snap[name] = [float(v) for v in np.asarray(a[name], dtype="float64").ravel()]
+                except (TypeError, ValueError):
+                    snap[name] = None
+        return snap
+
+    def purity(ev, monitor):
+        """The call must leave region, coordinates, centre and sizes exactly as the caller passed them (also when it raises)."""
+        run.evaluated(monitor)
+        for name, before in ev.pre["digest"].items():
+            arg = ev.args.get(name)
+            if digest(arg) != before:
+                now = arg
+                try:
+                    now = [float(v) for v in np.asarray(arg, dtype="float64").ravel()] if name != "coordinates" else [np.asarray(c) for c in arg]
+                except (TypeError, ValueError):
+                    pass
+                run.violation(monitor, "argument %r was modified by the call (container %s): before %r, after %r"
+                              % (name, region_container(arg) if name == "region" else type(arg).__name__, ev.pre.get(name), now if name != "coordinates" else "<arrays>"),
+                              {"argument": name, "before": ev.pre.get(name), "after": now, "size": ev.args.get("size"),
+                               "spacing": ev.args.get("spacing"), "shape": ev.args.get("shape")}, key="purity:" + name)
+
+    def pre_rolling(ev):
+        return snapshot(ev, ("region", "coordinates"))
+
+    def pre_expanding(ev):
+        return snapshot(ev, ("coordinates", "center", "sizes"))
+
     def post_rolling(ev):
+        purity(ev, "rolling_window.purity")
         if ev.exc is not None:
             run.count("raised:rolling_window:" + type(ev.exc).__name__)
             return
@@ -211,7 +331,7 @@ def install(tap, run):
             run.count("skipped:rolling_unreadable_input")
             return
         size, spacing, shape, region, adjust = a["size"], a["spacing"], a["shape"], a["region"], a["adjust"]
-        if len(arrays) < 2 or not _finite(arrays[0], arrays[1], size, spacing, region) or arrays[0].size == 0:
+        if len(arrays) < 2 or not _finite(arrays[0], arrays[1], size, spacing, ev.pre.get("region")) or arrays[0].size == 0:
             run.count("skipped:rolling_nonfinite_or_empty")
             return
         in_shape = arrays[0].shape
@@ -219,16 +339,24 @@ def install(tap, run):
         y = arrays[1].ravel().astype("float64")
         size = float(size)
         half = size / 2
+        loose_tol = 0.0
         if region is None:
             w, e, s, n = float(x.min()), float(x.max()), float(y.min()), float(y.max())
             run.count("class:region_inferred")
         else:
-            w, e, s, n = (float(v) for v in region)
+            # the values the caller passed (snapshot taken before the call), not whatever the object holds afterwards
+            w, e, s, n = ev.pre["region"]
             run.count("class:region_given")
+            run.count("class:region_container_" + region_container(region))
+            if region_is_single_precision(region):
+                loose_tol = 16 * EPS32 * max(abs(w), abs(e), abs(s), abs(n), size)
+                run.count("class:region_single_precision(centres judged to float32 ulps)")
             if np.any((x < w) | (x > e) | (y < s) | (y > n)):
                 run.count("class:points_outside_region")
         _describe_input(run, arrays)
         base = witness_base(a, arrays)
+        base["region_as_passed"] = ev.pre.get("region")
+        base["region_container"] = None if region is None else region_container(region)
         res = ev.result
 
         # ---- centres ------------------------------------------------
@@ -267,8 +395,8 @@ def install(tap, run):
                 size_n = size_e = None
                 eff_adjust = adjust
                 run.count("class:adjust_" + str(adjust))
-            pe, info_e = ref.check_line(east_vec, w + half, e - half, size_e, sp_e, eff_adjust, False)
-            pn, info_n = ref.check_line(north_vec, s + half, n - half, size_n, sp_n, eff_adjust, False)
+            pe, info_e = check_centre_line(east_vec, w + half, e - half, size_e, sp_e, eff_adjust, loose_tol)
+            pn, info_n = check_centre_line(north_vec, s + half, n - half, size_n, sp_n, eff_adjust, loose_tol)
             if info_e.get("tie") or info_n.get("tie"):
                 run.count("either_way:centre_count_tie")
             for info in (info_e, info_n):
@@ -374,7 +502,8 @@ def install(tap, run):
                 hull = (float(east_vec.min()) - half, float(east_vec.max()) + half,
                         float(north_vec.min()) - half, float(north_vec.max()) + half)
                 run.count("coverage:hull_of_windows")
-            required = (x > hull[0] + margin) & (x < hull[1] - margin) & (y > hull[2] + margin) & (y < hull[3] - margin)
+            rim = margin + loose_tol
+            required = (x > hull[0] + rim) & (x < hull[1] - rim) & (y > hull[2] + rim) & (y < hull[3] - rim)
             uncovered = required & ~selected.any(axis=0)
             run.count("coverage:points_required", int(required.sum()))
             edge_only = uncovered & covered_near
@@ -399,14 +528,17 @@ def install(tap, run):
         run.observe_max("largest_points_per_call", n_pts)
 
     def post_expanding(ev):
+        purity(ev, "expanding_window.purity")
         if ev.exc is not None:
             run.count("raised:expanding_window:" + type(ev.exc).__name__)
             return
         a = ev.args
         try:
             arrays = [np.asarray(c) for c in a["coordinates"]]
-            centre = np.asarray(a["center"], dtype="float64").ravel()
-            sizes = [float(v) for v in np.asarray(a["sizes"], dtype="float64").ravel()]
+            # the centre and sizes the caller passed (snapshot taken before the call)
+            centre = np.asarray(ev.pre["center"], dtype="float64").ravel()
+            sizes = [float(v) for v in ev.pre["sizes"]]
+            run.count("expanding:class:sizes_container_" + (("ndarray_" + str(a["sizes"].dtype)) if isinstance(a["sizes"], np.ndarray) else type(a["sizes"]).__name__))
         except Exception:  # noqa: BLE001
             run.count("skipped:expanding_unreadable_input")
             return
@@ -511,8 +643,8 @@ def install(tap, run):
         if len(sizes) >= 2 and (selected != selected[0:1]).any() and n_in and n_out:
             run.mark_nontrivial("expanding", arrays[0], arrays[1], centre, sizes)
 
-    tap.function(vc, "rolling_window", post=post_rolling)
-    tap.function(vc, "expanding_window", post=post_expanding)
+    tap.function(vc, "rolling_window", post=post_rolling, pre=pre_rolling)
+    tap.function(vc, "expanding_window", post=post_expanding, pre=pre_expanding)
 
 
 # ----------------------------------------------------------------------
@@ -581,19 +713,50 @@ def _call_rolling(run, vc, coords, **kwargs):
             warnings.simplefilter("ignore")
             return vc.rolling_window(coords, **kwargs)
     except ValueError as exc:
-        if "is larger than dimensions of the region" in str(exc):
+        region = kwargs.get("intended_region", kwargs.get("region"))
+        tol = 8 * EPS32 if region is not None and region_is_single_precision(kwargs.get("region")) else REL_MARGIN
+        if region is None:
+            x, y = np.asarray(coords[0], dtype="float64"), np.asarray(coords[1], dtype="float64")
+            region = [x.min(), x.max(), y.min(), y.max()]
+        side = min(float(region[1]) - float(region[0]), float(region[3]) - float(region[2]))
+        size = float(kwargs["size"])
+        if "is larger than dimensions of the region" in str(exc) and size >= side * (1 - tol):
             run.count("refused:window_larger_than_region")
             return None
-        if "Invalid region" in str(exc):
-            region = kwargs.get("region")
-            if region is None:
-                x, y = np.asarray(coords[0], dtype="float64"), np.asarray(coords[1], dtype="float64")
-                region = [x.min(), x.max(), y.min(), y.max()]
-            side = min(float(region[1]) - float(region[0]), float(region[3]) - float(region[2]))
-            if abs(float(kwargs["size"]) - side) <= REL_MARGIN * side:
-                run.count("refused:size_equals_side_within_roundoff(either_way)")
-                return None
+        if "Invalid region" in str(exc) and abs(size - side) <= tol * side:
+            run.count("refused:size_equals_side_within_roundoff(either_way)")
+            return None
         raise
+
+
+def _region_object(rng, region):
+    """
+    The same bounds in one of the containers a caller may use. Returns (object to pass, the float values it holds, keep-alive):
+    list, tuple, float64 ndarray, a row view of a 2-D table of regions, float32 ndarray, integer ndarray (bounds rounded
+    outwards, only when the region is at least 40 units wide).
+    """
+    w, e, s, n = (float(v) for v in region)
+    kind = int(rng.integers(0, 7))
+    if kind == 5 and min(e - w, n - s) < 40:
+        kind = 2
+    if kind == 0:
+        obj = [w, e, s, n]
+    elif kind == 1:
+        obj = (w, e, s, n)
+    elif kind == 2:
+        obj = np.array([w, e, s, n], dtype="float64")
+    elif kind == 3:
+        table = np.array([[w - 1, e + 1, s - 1, n + 1], [w, e, s, n], [0.0, 1.0, 0.0, 1.0]], dtype="float64")
+        obj = table[1]
+    elif kind == 4:
+        obj = np.array([w, e, s, n], dtype="float32")
+        if not (obj[0] < obj[1] and obj[2] < obj[3]):
+            obj = np.array([w, e, s, n], dtype="float64")
+    elif kind == 5:
+        obj = np.array([np.floor(w), np.ceil(e), np.floor(s), np.ceil(n)], dtype="int64" if rng.random() < 0.6 else "int32")
+    else:
+        obj = [np.float64(w), np.float64(e), np.float64(s), np.float64(n)]
+    return obj, [float(v) for v in obj]
 
 
 def _rolling_case(run, vc, rng):
@@ -615,9 +778,7 @@ def _rolling_case(run, vc, rng):
         else:  # shifted: partly beside the cloud
             sh = rng.uniform(-0.6, 0.6, 2)
             w, e, s, n = w0 + sh[0] * wid, e0 + sh[0] * wid, s0 + sh[1] * hei, n0 + sh[1] * hei
-        region = [float(w), float(e), float(s), float(n)]
-        if rng.random() < 0.3:
-            region = tuple(region)
+        region, (w, e, s, n) = _region_object(rng, [w, e, s, n])
     side = min(e - w, n - s)
     longer = max(e - w, n - s)
     pick = rng.random()
@@ -650,7 +811,7 @@ def _rolling_case(run, vc, rng):
             # region bounds are numpy floats - inferred regions are; python floats raise ZeroDivisionError instead.
             one = int(rng.integers(0, 3))
             kwargs["shape"] = (1 if one in (0, 2) else kwargs["shape"][0], 1 if one in (1, 2) else kwargs["shape"][1])
-            if region is not None:
+            if isinstance(region, (list, tuple)):
                 region = [np.float64(v) for v in region]
     if region is not None:
         kwargs["region"] = region
@@ -681,7 +842,7 @@ def _rolling_edge_case(run, vc, rng):
     # window size an integer number (or half) of lattice steps: window edges fall on lattice lines
     size = float(rng.choice([1, 2, 3, 4, 1.5, 2.5, 0.5])) * step
     size = min(size, min(m, p) * step)
-    kwargs = {"size": size, "region": region if rng.random() < 0.7 else None}
+    kwargs = {"size": size, "region": _region_object(rng, region)[0] if rng.random() < 0.7 else None}
     if rng.random() < 0.7:
         kwargs["spacing"] = float(rng.choice([0.5, 1, 1.5, 2, 3])) * step
         kwargs["adjust"] = str(rng.choice(["spacing", "region"]))
@@ -793,7 +954,11 @@ def _history_set(rng):
     w, e, s, n = float(east.min()), float(east.max()), float(north.min()), float(north.max())
     pad = rng.uniform(0.05, 0.3, 4)
     region = [w - pad[0] * (e - w), e + pad[1] * (e - w), s - pad[2] * (n - s), n + pad[3] * (n - s)]
-    return {"arrays": arrays, "region": region, "box": (w, e, s, n), "dirty": False, "calls": [], "ids": tuple(id(a) for a in arrays)}
+    # ONE region object per set, passed to every rolling_window call on the set; "region" is the caller's own copy of its values
+    region_obj, region = _region_object(rng, region)
+    table = region_obj.base.copy() if isinstance(region_obj, np.ndarray) and region_obj.base is not None else None
+    return {"arrays": arrays, "region": region, "region_obj": region_obj, "region_table": table, "box": (w, e, s, n), "dirty": False,
+            "calls": [], "ids": tuple(id(a) for a in arrays), "region_uses": 0}
 
 
 def _history_mutate(run, rng, hset):
@@ -870,24 +1035,42 @@ def _history_rolling(run, vc, rng, hset, reuse=None):
                 return
     else:
         size = float(side * rng.uniform(0.1, 0.6))
-        kwargs = {"size": size, "region": list(region)}
+        kwargs = {"size": size, "region": hset["region_obj"]}
         if rng.random() < 0.6:
             kwargs["spacing"] = float(size * rng.uniform(0.3, 1.4))
             kwargs["adjust"] = str(rng.choice(["spacing", "region"]))
         else:
             kwargs["shape"] = (int(rng.integers(2, 12)), int(rng.integers(2, 12)))
-    key = repr(sorted(kwargs.items()))
+    key = repr(sorted((k, v) for k, v in kwargs.items() if k != "region")) + repr("region" in kwargs)
     if hset["dirty"]:
         run.count("history:rolling_call_on_arrays_modified_in_place")
         if key in hset["calls"]:
             run.count("history:rolling_same_parameters_after_inplace_change")
-    if prev is not None and reuse in ("other_size", "other_step", "other_adjust") and kwargs != prev:
+    if prev is not None and reuse in ("other_size", "other_step", "other_adjust") and \
+            any(kwargs.get(k) != prev.get(k) for k in ("size", "spacing", "shape", "adjust")):
         run.count("history:rolling_same_region_" + reuse)
     hset["calls"].append(key)
     if "region" in kwargs:
         hset["rolling"] = dict(kwargs)
     out = _call_rolling(run, vc, hset["arrays"], **kwargs)
     run.count("history:rolling_calls")
+    if "region" in kwargs:
+        # the caller's region object must still hold the caller's values, however often it has been passed
+        hset["region_uses"] += 1
+        if hset["region_uses"] > 1:
+            run.count("history:rolling_calls_reusing_the_region_object")
+            run.count("history:region_object_reused_" + region_container(hset["region_obj"]))
+        run.evaluated("history.region_object_unchanged")
+        now = [float(v) for v in hset["region_obj"]]
+        table_ok = hset["region_table"] is None or np.array_equal(hset["region_obj"].base, hset["region_table"])
+        if now != hset["region"] or not table_ok:
+            run.violation("history.region_object_unchanged",
+                          "after %d rolling_window calls with the same region object (%s) it holds %r, the caller put %r there"
+                          % (hset["region_uses"], region_container(hset["region_obj"]), now, hset["region"]),
+                          {"region_now": now, "region_intended": hset["region"], "container": region_container(hset["region_obj"]),
+                           "uses": hset["region_uses"], "kwargs": {k: v for k, v in kwargs.items() if k != "region"}},
+                          key="history:region_object")
+            hset["region_obj"][...] = hset["region"] if isinstance(hset["region_obj"], np.ndarray) else hset["region_obj"]
     return out
 
 
